@@ -18,8 +18,7 @@ func VerifSpanCacheEnabled() bool { return spanCacheEnable }
 
 // VerifSkipDepth calls the unsafe-pointer skipType on a NON-EMPTY slice with a chosen budget.
 func VerifSkipDepth(b []byte, t TType, depth int) (int, error) {
-	p := unsafe.Pointer(&b[0])
-	return skipType(p, uintptr(p)+uintptr(len(b)), t, depth)
+	return skipType(unsafe.Pointer(&b[0]), len(b), t, depth)
 }
 
 // VerifBufferReaderSkipDepth calls BufferReader.skipType with a chosen budget.
